@@ -8,6 +8,7 @@ open Coba.C18
 def errName : Err → String
   | .indexError => "IndexError" | .keyError => "KeyError" | .zeroDivision => "ZeroDivisionError"
   | .typeError => "TypeError" | .assertion => "AssertionError" | .coba => "CobaException"
+  | .statistics => "StatisticsError"
 
 def exc {α} (f : α → Json) : Except Err α → Json
   | .ok a => obj [("ok", f a)]
@@ -97,6 +98,8 @@ def handle1 (req : Json) : Except String Json := do
     pure (obj [("model", exc resultToJson (filterFin true r n lp)),
                ("legacy", exc resultToJson (filterFin false r n lp)),
                ("spec", exc resultToJson (whereFinS r n lp)),
+               ("joint", exc resultToJson (filterFinD r n lp)),
+               ("specJ", exc resultToJson (whereFinJ r n lp)),
                ("hyp", Json.bool (wf r)),
                ("allref", Json.bool (decide (AllReferenced r)))])
   | "where" =>
@@ -117,6 +120,37 @@ def handle1 (req : Json) : Except String Json := do
                ("legacy", exc rawToJson (rawLearners false r x lc pc span)),
                ("spec", exc rawToJson (rawLearnersS r x lc pc span)),
                ("hyp", Json.bool (wf r))])
+  | "best" =>
+    let r ← parseResult (← field req "res")
+    let lc ← parseCols (← field req "l")
+    let pc ← parseCols (← field req "p")
+    let fl ← parseCols (← field req "fl")
+    let fp ← parseCols (← field req "fp")
+    let n ← opt nat (fieldD req "n" Json.null)
+    pure (obj [("model", exc resultToJson (filterBest r lc pc n fl fp)),
+               ("spec", exc resultToJson (whereBestS r lc pc n fl fp)),
+               ("hyp", Json.bool (wf r))])
+  | "contrast" =>
+    let r ← parseResult (← field req "res")
+    let parseSel := fun (j : Json) => do
+      (← arr j).mapM (fun (e : Json) => do
+        let tb ← match (← str (← field e "tbl")) with
+          | "env" => pure Tbl.env | "lrn" => pure Tbl.lrn | "val" => pure Tbl.val
+          | s => throw s!"bad table {s}"
+        let jj ← opt nat (fieldD e "j" Json.null)
+        let v ← int (← field e "v")
+        pure (tb, jj, v))
+    let sel1 ← parseSel (← field req "sel1")
+    let sel2 ← parseSel (← field req "sel2")
+    let pc ← parseCols (← field req "p")
+    let x ← parseX (← field req "x")
+    let span ← opt nat (fieldD req "span" Json.null)
+    let out := fun (d : List ((Key × Key) × List (Rat × Rat))) =>
+      ofList (fun (e : (Key × Key) × List (Rat × Rat)) =>
+        Json.arr #[ofList ofInt e.1.1, ofList ofInt e.1.2,
+          ofList (fun (q : Rat × Rat) => Json.arr #[ratToJson q.1, ratToJson q.2]) e.2]) d
+    pure (obj [("model", exc out (rawContrast r sel1 sel2 pc x span)),
+               ("spec", exc out (rawContrastS r sel1 sel2 pc x span))])
   | "remove" =>
     let ts ← (← arr (← field req "ts")).mapM (fun j => do
       match j with
